@@ -39,20 +39,20 @@ Proof. apply mfield_eqb_eq; reflexivity. Qed.
 (*  Values back to data                                                    *)
 (* ---------------------------------------------------------------------- *)
 
-Lemma ints_back l : omap int_of_val (map VInt l) = Some l.
-Proof. apply omap_map; reflexivity. Qed.
+Lemma ints_back l : all_some int_of_val (map VInt l) = Some l.
+Proof. apply all_some_map; reflexivity. Qed.
 
 Lemma vec_back v : vec_of_val (val_of_vec v) = Some v.
 Proof. apply ints_back. Qed.
 
 Lemma vecs_back l : vecs_of_val (VSeq (tmap val_of_vec l)) = Some l.
-Proof. rewrite tmap_eq. cbn [vecs_of_val]. apply omap_map, vec_back. Qed.
+Proof. rewrite tmap_eq. cbn [vecs_of_val]. apply all_some_map, vec_back. Qed.
 
 Lemma ints_seq_back l : ints_of_val (VSeq (tmap VInt l)) = Some l.
 Proof. rewrite tmap_eq. apply ints_back. Qed.
 
 Lemma names_back l : names_of_val (VSeq (tmap VBytes l)) = Some l.
-Proof. rewrite tmap_eq. cbn [names_of_val]. apply omap_map; reflexivity. Qed.
+Proof. rewrite tmap_eq. cbn [names_of_val]. apply all_some_map; reflexivity. Qed.
 
 (* ---------------------------------------------------------------------- *)
 (*  The environment of a decoded MeshData                                  *)
@@ -68,7 +68,7 @@ Proof. apply (assoc_combine_map mfield_eqb mfield_eqb_eq). Qed.
 Lemma part_single {A} (conv : val -> option A) e src f r :
   fields_targeting src = [f] -> opt_field conv e f = Some r -> part conv e src = Some r.
 Proof.
-  intros T O. unfold part. rewrite T. unfold omap. cbn [omap_acc]. rewrite O.
+  intros T O. unfold part. rewrite T. unfold all_some. cbn [all_some_acc]. rewrite O.
   cbn [rev_append]. rewrite last_some_single. reflexivity.
 Qed.
 
@@ -131,7 +131,7 @@ Lemma indices_env m fa wa fb wb :
   field_source fa = Some (index_source wa) -> field_source fb = Some (index_source wb) ->
   indices_of_env (env_of m) = Some (indices m).
 Proof.
-  intros T D Ia Ib Sa Sb. unfold indices_of_env. rewrite T. unfold omap. cbn [omap_acc].
+  intros T D Ia Ib Sa Sb. unfold indices_of_env. rewrite T. unfold all_some. cbn [all_some_acc].
   rewrite (index_field_env _ _ _ Ia Sa), (index_field_env _ _ _ Ib Sb). cbn [rev_append].
   destruct wa, wb; try (exfalso; apply D; reflexivity); destruct (indices m); reflexivity.
 Qed.
